@@ -87,11 +87,15 @@ func (w *world) wireStep(honest bool) {
 			applyOk = false
 		}
 		if r.Chance(35) {
-			act = vh.Pick(r, []string{"flip", "dup", "drop", "reorder", "splice", "splice", "replay", "replay", "stale", "close", "type"})
+			act = vh.Pick(r, []string{"flip", "dup", "drop", "reorder", "splice", "splice", "replay", "replay", "stale", "close", "type", "windowdrop", "windowdrop"})
 		}
 	}
 	drift := int64(r.Intn(3))
 	head := s.W[0]
+	if act != "dup" && act != "reorder" && act != "replay" && act != "close" && act != "windowdrop" &&
+		!(act == "splice" && len(w.hist) == 0) {
+		s.atWindowStart = head.typ == replication.MsgReplicateCheckpoint // head leaves the wire
+	}
 	if act != "pass" || !applyOk {
 		s.honest = false
 		w.nontriv = true
@@ -103,6 +107,8 @@ func (w *world) wireStep(honest bool) {
 		w.send(head, applyOk, drift)
 	case "drop":
 		s.W = s.W[1:]
+	case "windowdrop":
+		w.windowDrop()
 	case "dup":
 		w.send(head, applyOk, drift)
 	case "reorder":
@@ -185,6 +191,87 @@ func (w *world) wireStep(honest bool) {
 	if w.sess != nil && !w.sess.alive {
 		w.detach()
 	}
+}
+
+// windowDrop removes one whole checkpoint window from the wire: every entry frame since the last
+// checkpoint and the checkpoint that closes the span (interval 1: one entry + its checkpoint). If
+// the head of the wire is in the middle of a window, the rest of that window is passed first.
+func (w *world) windowDrop() bool {
+	s := w.sess
+	// find a window that lies completely in W: [i, j] with W[j] a checkpoint, W[i..j-1] entries, and
+	// W[i-1] a checkpoint (or i == 0 and the last frame taken off the wire was a checkpoint / none)
+	start := 0
+	if !s.atWindowStart {
+		for start < len(s.W) && s.W[start].typ != replication.MsgReplicateCheckpoint {
+			start++
+		}
+		start++
+	}
+	j := start
+	for j < len(s.W) && s.W[j].typ != replication.MsgReplicateCheckpoint {
+		j++
+	}
+	if start >= len(s.W) || j >= len(s.W) || j == start {
+		return false
+	}
+	for i := 0; i < start && w.sess != nil && w.sess.alive; i++ { // finish the current window honestly
+		f := s.W[0]
+		s.W = s.W[1:]
+		s.atWindowStart = f.typ == replication.MsgReplicateCheckpoint
+		w.send(f, true, 0)
+	}
+	if w.sess == nil || !w.sess.alive {
+		return false
+	}
+	n := j - start + 1
+	s.W = s.W[n:]
+	s.atWindowStart = true
+	s.honest = false
+	w.nontriv = true
+	w.c.Tag(fmt.Sprintf("wire:windowdrop-done"))
+	return true
+}
+
+// directed: three checkpoint windows; the first is delivered, the second vanishes on the wire, the
+// third is delivered. The reader must not stay connected past the third window's checkpoint.
+func windowDropCase(c *vh.Ctx, r *vh.Rand, ww *wal.Writer, atomic bool, tol int64, no int, iv int, windows int) {
+	w := newWorld(c, r, ww, atomic, 4*iv*windows+8, iv, tol, no)
+	w.connect()
+	for i := 0; i < iv*windows; i++ {
+		p := payload(r, false)
+		if len(p) == 0 {
+			p = []byte{byte(i)}
+		}
+		if w.assign(0, p, i%3) {
+			w.enqueue(0)
+		}
+	}
+	s := w.sess
+	victim := 1 + r.Intn(windows-1) // never the first window only: any but window 0, or window 0 too
+	if r.Chance(25) {
+		victim = 0
+	}
+	for k := 0; k < windows && w.sess != nil && w.sess.alive; k++ {
+		if k == victim {
+			if !w.windowDrop() {
+				w.c.Tag("wire:windowdrop-impossible")
+			}
+			continue
+		}
+		for w.sess != nil && w.sess.alive && len(s.W) > 0 {
+			f := s.W[0]
+			s.W = s.W[1:]
+			s.atWindowStart = f.typ == replication.MsgReplicateCheckpoint
+			w.send(f, true, 0)
+			if f.typ == replication.MsgReplicateCheckpoint {
+				break
+			}
+		}
+	}
+	if w.sess != nil && !w.sess.alive {
+		w.detach()
+	}
+	w.finish()
 }
 
 // ---------------------------------------------------------------- case generators
@@ -518,6 +605,13 @@ func main() {
 		for _, iv := range []int{1024, 1} {
 			no++
 			witnessCase(c, r, ww, atomic, tol, no, path, iv)
+		}
+	}
+	// (1b) a whole checkpoint window vanishes on the wire
+	for _, iv := range []int{1, 1, 2, 3, 4, 16} {
+		for _, wn := range []int{3, 4} {
+			no++
+			windowDropCase(c, r, ww, atomic, tol, no, iv, wn)
 		}
 	}
 	// (2) random lockstep cases (forced schedules + adversary)
